@@ -492,6 +492,8 @@ fn parse_namespaces(
     let mut core_namespace = BTreeMap::<String, serde_json::Value>::new();
     let mut aamva_namespace = BTreeMap::<String, serde_json::Value>::new();
     let mut parsed_response = BTreeMap::<String, serde_json::Value>::new();
+    // `nameSpaces` is optional in IssuerSigned, and a response need not disclose any element of
+    // the core namespace (e.g. when only AAMVA elements were requested and permitted).
     let mut namespaces = device_response
         .documents
         .as_ref()
@@ -502,27 +504,26 @@ fn parse_namespaces(
         .issuer_signed
         .namespaces
         .as_ref()
-        .ok_or(Error::NoMdlDataTransmission)?
-        .clone()
-        .into_inner();
+        .map(|namespaces| namespaces.clone().into_inner())
+        .unwrap_or_default();
 
-    namespaces
-        .remove("org.iso.18013.5.1")
-        .ok_or(Error::IncorrectNamespace)?
-        .into_inner()
-        .into_iter()
-        .map(|item| item.into_inner())
-        .for_each(|item| {
-            let value = parse_response(item.element_value.clone());
-            if let Ok(val) = value {
-                core_namespace.insert(item.element_identifier, val);
-            }
-        });
+    if let Some(core_response) = namespaces.remove("org.iso.18013.5.1") {
+        core_response
+            .into_inner()
+            .into_iter()
+            .map(|item| item.into_inner())
+            .for_each(|item| {
+                let value = parse_response(item.element_value.clone());
+                if let Ok(val) = value {
+                    core_namespace.insert(item.element_identifier, val);
+                }
+            });
 
-    parsed_response.insert(
-        "org.iso.18013.5.1".to_string(),
-        serde_json::to_value(core_namespace)?,
-    );
+        parsed_response.insert(
+            "org.iso.18013.5.1".to_string(),
+            serde_json::to_value(core_namespace)?,
+        );
+    }
 
     if let Some(aamva_response) = namespaces.remove("org.iso.18013.5.1.aamva") {
         aamva_response
